@@ -169,11 +169,14 @@ func replayHistory(id any, ops []StoreOp, s storeSetup) (events []any) {
 			for _, a := range op.From {
 				src.Add(mgjson.ASTAtom(a))
 			}
-			fs.Merge(src)
-			from := op.From
-			if from == nil {
-				from = []mgjson.Atom{}
+			// what is merged is what the source store holds (read back: the source is a store with its own behaviour -
+			// a hash-keyed source keeps one of two atoms with equal hashes, finding F8 - and the store under test is
+			// answerable only for merging what it is given)
+			from := []mgjson.Atom{}
+			for _, p := range src.ListPredicates() {
+				src.GetFacts(ast.NewQuery(p), func(a ast.Atom) error { from = append(from, mgjson.FromAtom(a)); return nil })
 			}
+			fs.Merge(src)
 			events = append(events, map[string]any{"ev": "merge", "from": from})
 			// the source changes afterwards: the merged-into store must not follow
 			hadMarker := fs.Contains(mgjson.ASTAtom(marker))
